@@ -1,7 +1,9 @@
 package gosym
 
 import (
+	"math/big"
 	"regexp"
+	"strings"
 )
 
 var denomRe = regexp.MustCompile(`^[a-zA-Z][a-zA-Z0-9/:._-]{2,127}$`)
@@ -132,6 +134,38 @@ func init() {
 		}
 		return ret1(Concat(ps...))
 	})
+	// NewDecFromStr: exact for constant text, an arbitrary Dec (or an error) for symbolic text
+	mkDec := func(st *State, t *Term) Value { return &StructV{F: []Value{newBig(st, t)}} }
+	reg(sdkT+".NewDecFromStr", func(c *CallCtx, a []Value) []Outcome {
+		s := a[0].(*Term)
+		res := c.Res
+		setRes := func(st *State, v Value) {
+			if res != nil {
+				f := st.top()
+				f.Locals[f.Info.idx[res]] = v
+			}
+		}
+		if s.IsConst() {
+			v, ok := parseDecConst(s.SV)
+			if !ok {
+				return ret1(tuple(mkDec(c.S, MkI(0)), newErr("invalid decimal", nil)))
+			}
+			return ret1(tuple(mkDec(c.S, MkInt(v)), &IfaceV{}))
+		}
+		key := "decstr:" + s.String()
+		var val, bad *Term
+		if g, ok := c.S.W.Ghost[key]; ok {
+			val, bad = g.(*TupleV).E[0].(*Term), g.(*TupleV).E[1].(*Term)
+		} else {
+			val, bad = FreshVar("decfromstr", SInt), FreshVar("decfromstr.err", SBool)
+			c.S.W.Ghost[key] = tuple(val, bad)
+			c.S.W.Nondet = append(c.S.W.Nondet, NondetEntry{Tag: "env.decfromstr." + sanitize(s.String()), T: val, Kind: "int"})
+		}
+		return []Outcome{
+			{Cond: Not(bad), Do: func(st *State) { setRes(st, tuple(mkDec(st, val), &IfaceV{})) }},
+			{Cond: bad, Do: func(st *State) { setRes(st, tuple(mkDec(st, MkI(0)), newErr("invalid decimal", nil))) }},
+		}
+	})
 	reg("("+sdkT+".Dec).String", func(c *CallCtx, a []Value) []Outcome { return ret1(FreshVar("decstr", SStr)) })
 	reg("("+sdkT+".Int).String", func(c *CallCtx, a []Value) []Outcome {
 		p := a[0].(*StructV).F[0].(*Ptr)
@@ -162,4 +196,38 @@ func init() {
 		}
 		return outs
 	})
+}
+
+
+// parseDecConst parses a decimal literal like sdk.NewDecFromStr (at most 18 fractional digits).
+func parseDecConst(str string) (*big.Int, bool) {
+	neg := false
+	if len(str) > 0 && str[0] == '-' {
+		neg = true
+		str = str[1:]
+	}
+	if str == "" {
+		return nil, false
+	}
+	intPart, frac := str, ""
+	if i := strings.IndexByte(str, '.'); i >= 0 {
+		intPart, frac = str[:i], str[i+1:]
+		if frac == "" || strings.Contains(frac, ".") {
+			return nil, false
+		}
+	}
+	if len(frac) > 18 {
+		return nil, false
+	}
+	for len(frac) < 18 {
+		frac += "0"
+	}
+	v, ok := new(big.Int).SetString(intPart+frac, 10)
+	if !ok {
+		return nil, false
+	}
+	if neg {
+		v.Neg(v)
+	}
+	return v, true
 }
